@@ -258,6 +258,25 @@ Example C08_set_example :
      end.
 Proof. vm_compute. repeat split; reflexivity. Qed.
 
+(* ---- the tie to the source text (gen/SrcFill.v, regenerated on every run from schedule.py): the search for the
+   first day with free capacity and the greedy fill of ForwardScheduler, translated from their current source text, are
+   the model's [fwd_nearest] / [fwd_shift] for all inputs (see Props_C03.v for the vocabulary) *)
+From Coq Require Import QArith.
+From PJ Require Import Cal.Calendar gen.SrcFill Sched.SrcFillEquiv Sched.SrcFillInv.
+Open Scope Z_scope.
+
+Theorem C08_src_fwd_nearest : forall cfg l r t t0, pos_rows l ->
+  src_fwd_nearest (balance cfg) (nearest_of (cap cfg r) (h_search cfg)) (gau_of (cap cfg r)) r (qrows_of l) t0 t
+                  (Z.of_nat (h_near cfg))
+  = fwd_nearest cfg l r t t0.
+Proof. exact src_fwd_nearest_eq. Qed.
+
+Theorem C08_src_fwd_shift : forall cfg l r t s0 left, pos_rows l -> 0 <= left ->
+  src_fwd_shift (balance cfg) (nearest_of (cap cfg r) (h_search cfg)) (gau_of (cap cfg r)) r (qrows_of l) s0 t
+                (inject_Z left) (Z.of_nat (h_fill cfg))
+  = lift_shift (fwd_shift cfg l r t s0 left).
+Proof. exact src_fwd_shift_eq. Qed.
+
 Print Assumptions C08_tight.
 Print Assumptions C08_tight_leaves.
 Print Assumptions C08_encode.
@@ -281,3 +300,5 @@ Print Assumptions C08_indep_set_masked_list.
 Print Assumptions C08_indep_set_list.
 Print Assumptions C08_isolated_is_unrelated.
 Print Assumptions C08_set_example.
+Print Assumptions C08_src_fwd_nearest.
+Print Assumptions C08_src_fwd_shift.
